@@ -4,7 +4,7 @@ import itertools, os, random, subprocess, hashlib
 from . import common
 
 PROP = "C16"
-LEANCHECK_MODULES = ["Ivy.L0.Avl", "Ivy.L0.AvlProofs", "Ivy.Props.C16"]
+LEANCHECK_MODULES = ["Ivy.L0.Avl", "Ivy.L0.AvlProofs", "Ivy.Props.C16", "Ivy.L0.AvlPtr", "Ivy.Props.C16ptr"]
 HARNESS = os.path.join(common.BUILD, "avl_h")
 
 
@@ -111,8 +111,13 @@ def oracle(ops, outs):
 
 def run_both(ops):
     text = "\n".join(ops) + "\n"
-    a = subprocess.run([HARNESS], input=text, stdout=subprocess.PIPE, stderr=subprocess.PIPE, text=True)
+    try:
+        a = subprocess.run([HARNESS], input=text, stdout=subprocess.PIPE, stderr=subprocess.PIPE, text=True, timeout=90)
+    except subprocess.TimeoutExpired as e:
+        a = subprocess.CompletedProcess(e.cmd, -9, (e.stdout or b"").decode() if isinstance(e.stdout, bytes) else (e.stdout or ""), "TIMEOUT: iv_avl.c did not return")
     b = subprocess.run([common.REPLAY_BIN, "avl"], input=text, stdout=subprocess.PIPE, stderr=subprocess.PIPE, text=True)
+    # the pointer-level model (Ivy.L0.AvlPtr: parent pointers, rebalance_path walk, min/max/next/prev) on the same ops
+    b.ptr = subprocess.run([common.REPLAY_BIN, "avlptr"], input=text, stdout=subprocess.PIPE, stderr=subprocess.PIPE, text=True)
     return a, b
 
 
@@ -222,12 +227,14 @@ def examine(name, ops, tier, seed, res, pre=None):
         p = write_case(name, small, tier, seed)
         res.impl_violations.append((f"avl:{msg.split(':')[-1][:60]}", f"implementation violates C16: {msg} {san}", p))
         return
-    d = first_diff(al, bl)
-    if d is not None:
-        oi = op_index_for_line(ops, d)
-        small = shrink_prefix(ops, oi)
-        p = write_case(name, small, tier, seed)
-        res.divergences.append((f"model Ivy.L0.Avl and iv_avl.c disagree at op '{ops[oi]}': impl={al[d] if d < len(al) else '<none>'} model={bl[d] if d < len(bl) else '<none>'}", p))
+    for which, lines in (("Ivy.L0.Avl", bl), ("Ivy.L0.AvlPtr (pointer level)", [x.rstrip() for x in b.ptr.stdout.splitlines()])):
+        d = first_diff(al, lines)
+        if d is not None:
+            oi = op_index_for_line(ops, d)
+            small = shrink_prefix(ops, oi)
+            p = write_case(name, small, tier, seed)
+            res.divergences.append((f"model {which} and iv_avl.c disagree at op '{ops[oi]}': impl={al[d] if d < len(al) else '<none>'} model={lines[d] if d < len(lines) else '<none>'}", p))
+            break
 
 
 def run(tier, seed, proof):
@@ -236,7 +243,7 @@ def run(tier, seed, proof):
                 "every deletable node, loaded into both sides; (2) random insert/delete/duplicate histories. Each case's full tree dump "
                 "(shape, keys, stored heights) after every op is compared model vs iv_avl.c and checked by a reference sorted-set oracle. "
                 "non-trivial = at least one rotation or early-stop happened; distinct by hash of the op file")
-    res.assumptions = ["comparator is a strict total order on keys (int keys in the harness)", "parent pointers are checked at run time by the harness, not modelled"]
+    res.assumptions = ["comparator is a strict total order on keys (int keys in the harness)", "parent pointers: modelled by Ivy.L0.AvlPtr (heap of nodes with parent/left/right/height; refinement to Ivy.L0.Avl proved in Ivy.Props.C16ptr) and additionally checked at run time by the harness", "uint8_t height modelled as Nat (an AVL tree of height 256 needs > 2^177 nodes)"]
     ok, log = build()
     if not ok:
         res.divergences.append(("harness for iv_avl.c no longer compiles: " + log[-400:], None))
@@ -270,7 +277,7 @@ def search(tier, seed, proof):
     for s in range(seed + 1000, seed + 1004):
         for name, ops, tag in gen_cases("quick", s):
             text = "\n".join(ops) + "\n"
-            a = subprocess.run([HARNESS], input=text, stdout=subprocess.PIPE, stderr=subprocess.PIPE, text=True)
+            a, _ = run_both(ops)
             res.evaluations += 1
             msg = oracle(ops, a.stdout.splitlines())
             if msg is None and a.returncode != 0:
@@ -291,6 +298,8 @@ def replay(path):
     a, b = run_both(ops)
     print("--- implementation"); print(a.stdout, a.stderr[-2000:])
     print("--- model"); print(b.stdout)
+    if b.ptr.stdout != b.stdout:
+        print("--- pointer-level model"); print(b.ptr.stdout)
     msg = oracle(ops, a.stdout.splitlines())
     print("--- oracle:", msg or "ok")
     return 1 if (msg or a.returncode != 0) else 0
